@@ -182,8 +182,17 @@ static bool iter_cb(void *vctx, void *it)
                 ok = ok && buf_canaries_ok(&ib) && len == want;
                 print_bytes(ib.p, len <= want ? len : want);
                 buf_free(&ib);
+                {
+                    /* a hook may also pass a larger scratch buffer: the entry must report 4 or 16 */
+                    Buf    jb   = buf_new(want + 16);
+                    size_t len2 = want + 16;
+                    T->rr_ip(it, jb.p, &len2);
+                    ok = ok && buf_canaries_ok(&jb) && buf_tail_untouched(&jb, want);
+                    printf(",\"ip2len\":%zu", len2);
+                    buf_free(&jb);
+                }
             } else {
-                printf("[]");
+                printf("[],\"ip2len\":0");
             }
             printf(",\"ok\":%s}", ok ? "true" : "false");
             if (!ok) {
